@@ -14,6 +14,35 @@ TV = 'translation_validation'
 
 # id -> (category, text, design_ref, level_note, technique)
 CLAIMS = {
+    'C14': (MC,
+            'FdlTags gives every tag operation a functional semantics on the heap machine (tag hierarchy as a '
+            'bitmask: T0 > T1, T2 unrelated): set_tagged / select(tag).replace with and without deepcopy, '
+            'iteration of a tag selection, list_tags with and without superclasses, add/remove/set/clear tag. TLC '
+            'checks on every tagged configuration in the bound the pointwise statement (AssignLaw: every matching '
+            'argument of every reachable Buildable holds v, every other argument and every tag set is unchanged; '
+            'EditLaw: a tag edit changes one tag set and no value). Every (heap, operation) is replayed on the real '
+            'library (outcome, projected post-heap incl. tags, yielded multiset, list_tags mask); random larger '
+            'tagged configurations are recorded and judged by Trace_C14; nine scenarios cover tags on '
+            'positional-only, *args and **kwargs arguments, annotation tags, Tag.new and survival through JSON and '
+            'diff application (copy/cast survival is decided in C07, TaggedValue build semantics in C02).',
+            'DESIGN.md §5 C14',
+            'Trusted: TLC, harness projection. Domain: the assigned value is a leaf or a Buildable carrying no '
+            'argument tagged with the selected tag.',
+            'TLA+ functional tag semantics + pointwise laws checked by TLC; per-operation replay; recorded '
+            'operations judged by the specification'),
+    'C15': (MC,
+            'FdlSelect defines which nodes a selection matches (callable pool with a class hierarchy A > B, '
+            'match_subclasses, buildable_type) and the effect of iter / get / set / replace on the heap machine; TLC '
+            'checks for every DAG in the bound that the selection is sound and complete w.r.t. the statement, that '
+            'set changes exactly the selected nodes in exactly that slot and that replace removes every reference '
+            'to a selected node while every other item is unchanged. Every (heap, selection, operation) is '
+            'replayed with fiddle.selectors: yielded identities, get() multiset, projected post-heap and the '
+            'identity of every surviving non-matching Buildable; random larger DAGs are judged by Trace_C15. '
+            '(Iteration of tag selections is decided in C14.)',
+            'DESIGN.md §5 C15',
+            'Trusted: TLC, harness projection. Containers holding a replaced reference may be rebuilt; only '
+            'Buildables must keep identity. With deepcopy the replacement is copied once per matching node.',
+            'TLA+ selection semantics + laws checked by TLC; per-operation replay with identity observation'),
     'C07': (MC,
             'MC_C07 models the six copy operations on the abstract heap (deep kinds duplicate every reachable '
             'object and remap references, shallow kinds add one top-level object holding the same values) followed '
